@@ -277,6 +277,27 @@ class Interp:
                 out.append(c)
         return out
 
+    def resolved_guard(self):
+        """the conjuncts of the current path plus what unit resolution derives from them:
+        not(a and b) with b known gives not a (only used to decide conditionals, never stored in events)"""
+        out = self.cur_guard_list()
+        for _ in range(4):
+            known = set(out)
+            changed = False
+            for c in list(out):
+                if isinstance(c, Op) and c.op == "not" and isinstance(c.args[0], Op) and c.args[0].op == "and":
+                    rest = [a for a in c.args[0].args if a not in known]
+                    if len(rest) == 1 and len(rest) < len(c.args[0].args):
+                        r = not_(rest[0])
+                        for x in (r.args if isinstance(r, Op) and r.op == "and" else (r,)):
+                            if x not in known:
+                                out.append(x)
+                                known.add(x)
+                                changed = True
+            if not changed:
+                break
+        return out
+
     def cur_guard(self):
         return and_(*self.cur_guard_list())
 
@@ -349,6 +370,16 @@ class Interp:
                     v = v.a
                 elif sub_and and any(not_(x) in g for x in sub_and):
                     v = v.b
+                elif isinstance(v.a, Undef) or isinstance(v.b, Undef):
+                    # a name that is unbound on the other path: decide with what unit resolution derives from the guard
+                    g2 = set(self.resolved_guard())
+                    parts = sub_and or (v.c,)
+                    if all(x in g2 for x in parts):
+                        v = v.a
+                    elif any(not_(x) in g2 for x in parts):
+                        v = v.b
+                    else:
+                        break
                 else:
                     break
             n += 1
@@ -1230,6 +1261,14 @@ class _CallMixin:
             if name == "unpack_from" and args:
                 start = args[1] if len(args) > 1 else kwargs.get("offset", Const(0))
                 return self.struct_unpack(f, args[0], start, node, exact=False)
+            if name == "iter_unpack" and len(args) == 1 and self.struct_layout(f) is not None:
+                total = self.struct_layout(f)[1]
+                ln = self.x_len([args[0]], {}, node)
+                bad = compare("ne", binop("mod", ln, Const(total)), Const(0))
+                if bad != FALSE and not self.len_multiple_of(ln, total):
+                    self.event("raise", (Op("call:struct.error"),), node)
+                    self.note_raise(and_(self.local_guard(state=True), bad))
+                return Op("iter_unpack", recv.args[0], args[0])
             raise AnalysisError("struct.Struct.%s is not modelled (line %s)" % (name, getattr(node, "lineno", "?")))
         if isinstance(recv, Op) and recv.op == "superobj":
             cinfo = self.prog.cls(recv.args[1].v)
@@ -2035,7 +2074,7 @@ class _StmtMixin:
                 # the groups of a match of a constant regular expression: as many as the expression has
                 m_ = sv.args[0]
                 rx = m_.args[0] if isinstance(m_, Op) and m_.op in ("m:fullmatch", "m:match", "m:search") and m_.args else None
-                pat = rx.args[0] if isinstance(rx, Op) and rx.op == "call:re.compile" and rx.args else None
+                pat = rx.args[0] if isinstance(rx, Op) and rx.op in ("re.compile", "call:re.compile") and rx.args else None
                 if is_const(pat, (str, bytes)):
                     import re as _re
                     try:
@@ -2044,6 +2083,8 @@ class _StmtMixin:
                         ng = None
                     if ng is not None:
                         els = [Op("getitem", sv, Const(i)) for i in range(ng)]
+            if els is None and any(isinstance(x, Undef) for x in walk(sv)):
+                return FALSE, []        # the subject is unbound on this path (a path the analysis could not rule out earlier)
             if els is None:
                 raise AnalysisError("match: sequence pattern on a value of unknown length (line %s)" % getattr(p, "lineno", "?"))
             if len(els) != len(p.patterns):
@@ -2326,6 +2367,11 @@ class _LoopMixin:
                         lens.append(ln)
                 L.trip = lens[0] if len(lens) == 1 else Op("min", *lens)
                 elem = self.elem_of(it, L)
+            elif isinstance(it, Op) and it.op == "iter_unpack":
+                # one tuple of fields per complete record of the buffer
+                total = self.struct_layout(it.args[0].v)[1]
+                L.trip = binop("floordiv", self.x_len([it.args[1]], {}, None), Const(total))
+                elem = self.struct_unpack(it.args[0].v, it.args[1], mul(Const(total), L.idx), st, exact=False, check=False)
             elif isinstance(it, Op) and it.op == "enumerate":
                 L.trip = self.x_len([it.args[0]], {}, None)
                 start = it.args[1] if len(it.args) > 1 else Const(0)
@@ -2441,6 +2487,7 @@ class _LoopMixin:
         body_ret = fr.ret
         new_rc = fr.ret_conds[nrc0:]
         if new_rc:
+            L.ret_cond = or_(*new_rc)
             ex = Op("exists", Const(L.lid), or_(*new_rc))
             del fr.ret_conds[nrc0:]
             fr.ret_conds.append(ex)
@@ -3025,6 +3072,8 @@ class _ExtMixin:
                 none.append(not_(it[2]))
             else:
                 ex = Op("exists", Const(it[1].lid), it[3])
+                if getattr(it[1], "ret_cond", None) is None:
+                    it[1].ret_cond = it[3]          # the iteration whose element next() hands out
                 res = ite(ex, Op("loopret", Const(it[1].lid), it[2]), res)
                 none.append(not_(ex))
         if not has_default:
@@ -3190,13 +3239,23 @@ class _ExtMixin:
             return None
         return order, off, fields
 
-    def struct_unpack(self, fmtstr, data, start, n, exact=True):
+    def len_multiple_of(self, ln, total):
+        """len - len % total (the idiom that cuts a buffer to its complete records) is a multiple of total"""
+        try:
+            from .pelx import equivalent
+            return bool(equivalent(binop("mod", ln, Const(total)), Const(0))[0])
+        except Exception:
+            return False
+
+    def struct_unpack(self, fmtstr, data, start, n, exact=True, check=True):
         lay = self.struct_layout(fmtstr)
         if lay is None:
             return None
         order, total, fields = lay
         ln = self.x_len([data], {}, n)
         bad = compare("ne", ln, add(start, Const(total))) if exact else compare("lt", ln, add(start, Const(total)))
+        if not check:
+            bad = FALSE
         if bad != FALSE:
             self.event("raise", (Op("call:struct.error"),), n)
             self.note_raise(and_(self.local_guard(state=True), bad))
